@@ -16,15 +16,29 @@
   * `reject_is_diag`: whatever is not accepted is answered with a diagnostic, never a panic;
   * `dup_label_rejected`, `undefined_label_rejected`, `second_orig_rejected`.
 
-  STATED, not proved (checked by the three-way correspondence `./check C04`):
+  PROVED (text level, `Spec.render`, every flag / program in the domain / layout in `Layout.ok`):
 
-  * `accept_iff_wf`: for every layout `t` of an abstract program `P` (operands arbitrary 16-bit
-    words, arbitrary label distances), `assemble flag [] t` is an image iff `P.image flag` is
-    defined.  Missing: the token-level induction connecting `Spec.Prog` to the AIR (see C01).
+  * `accept_render_image`: if the assembler returns an image for a layout of an abstract program `P`
+    (operands arbitrary 16-bit words, labels possibly undefined / defined twice, any number of
+    `.orig`, stack statements, any size), then `P.image flag` is defined and is that image — i.e.
+    a program with an operand that does not fit, an undefined or duplicate label, a second `.orig`,
+    a label distance out of range, a stack mnemonic with the flag off, or more than 65,535 words is
+    **rejected**.  Proof: `Proofs/ParseReject.lean` (`parse_items_inv`, the inversion twin of
+    `parse_tokens_image`: whatever `parseLoop` accepts over the token stream of `P` is well formed,
+    and `finishAll` of the parsed lines equals `Spec.wordsFrom` as an *option*), `preprocess_render`
+    for the token stream, `Proofs/AsmFlag.lean` for the flag;
+  * `accept_iff_wf_render`: **`accept_iff_wf` for the renderer** — accepted iff `P.image flag` is
+    defined (`⇐` is `C01.assemble_image_render`);
+  * `reject_render`: an ill-formed program is answered with a diagnostic.
+
+  `Layout.ok L P` presupposes of `P` only `Prog.renderable` (every `br` has a mnemonic, string
+  bodies fit between quotes, after word 65,535 only `.blkw 0` follows) and that distinct label ids
+  have distinct valid names; none of the C04 clauses is presupposed.
 -/
 import Lace.Props.C01
 import Lace.Props.C05
 import Lace.Proofs.AsmRange
+import Lace.Proofs.ParseReject
 namespace Lace.C04
 open Lace.Asm Lace.Spec Lace.C01
 
@@ -129,12 +143,150 @@ example :
     (assemble false [] "br x\n.blkw #256\nx halt".toList).1 = .diag .offsetTooLarge none := by
   refine ⟨by rfl, ⟨_, by rfl, by rfl, by rfl⟩, by rfl, by rfl, by rfl, by rfl, by rfl, by rfl⟩
 
-/-! ### text level (stated; see the header) -/
+/-! ### text level -/
 
 /-- Full statement of C04 relative to a rendering relation (see `C01.assemble_image`): a layout of
 an abstract program — operands arbitrary — is accepted iff the program is well formed. -/
 def accept_iff_wf (Layout : Prog → List Char → Prop) : Prop :=
   ∀ (flag : Bool) (P : Prog) (t : List Char), P.syntaxOk = true → Layout P t →
     ((∃ img, (assemble flag [] t).1 = .ok img) ↔ (P.image flag).isSome = true)
+
+/-- **Whatever is accepted is well formed, and encoded without truncation** (the reject direction of
+C04 at the text level, in contrapositive form).  `P` is *any* abstract program in the domain
+(`syntaxOk`): its literal operands are arbitrary 16-bit words, its label references may be undefined
+or defined twice, it may contain several `.orig`, stack statements, more than 65,535 words.  If the
+assembler returns an image for a layout of `P`, then `Prog.image` is defined — every operand fits its
+field, every referenced label is defined exactly once, there is at most one `.orig`, every
+PC-relative label distance fits, stack mnemonics occur only with the flag, at most 65,535 words — and
+the returned origin and words are exactly that image. -/
+theorem accept_render_image (flag : Bool) (L : Layout) (P : Prog) (hsyn : P.syntaxOk = true)
+    (hok : L.ok P = true) (img : Image) (h : (assemble flag [] (render L P)).1 = .ok img) :
+    P.image flag = some (img.orig, img.words) := by
+  -- the preprocessor has succeeded
+  have hpre : ∃ toks, preprocess (some flag) (render L P) = .ok toks := by
+    cases hp : preprocess (some flag) (render L P) with
+    | ok toks => exact ⟨toks, rfl⟩
+    | diag k s => unfold assemble assembleWith parse at h; rw [hp] at h; cases h
+    | panic s => unfold assemble assembleWith parse at h; rw [hp] at h; cases h
+  obtain ⟨toks, hpre⟩ := hpre
+  -- hence no stack mnemonic with the flag off
+  have hst : flag = true ∨ P.stmts.all (fun ls => !ls.2.isStack) = true := by
+    cases flag with
+    | true => exact Or.inl rfl
+    | false =>
+      right
+      cases hall : P.stmts.all (fun ls => !ls.2.isStack) with
+      | true => rfl
+      | false =>
+        exfalso
+        have hns := preprocess_off_no_stack hpre
+        have hon : preprocess (some true) (render L P) = .ok toks := by
+          rcases preprocessLoop_rel ((render L P).length + 1) 0 (render L P) [] with he | ⟨sp, he⟩
+          · unfold preprocess at hpre ⊢; rw [← he]; exact hpre
+          · unfold preprocess at hpre; rw [he] at hpre; cases hpre
+        obtain ⟨toks', hpre', hm⟩ := preprocess_render true L P hok (Or.inl rfl)
+        rw [hon] at hpre'
+        simp only [Res.ok.injEq] at hpre'
+        subst hpre'
+        obtain ⟨t, ht, hs⟩ := stack_token L.names P toks hm hall
+        rw [hns t ht] at hs
+        cases hs
+  obtain ⟨toks', hpre', hm⟩ := preprocess_render flag L P hok hst
+  rw [hpre] at hpre'
+  simp only [Res.ok.injEq] at hpre'
+  subst hpre'
+  have hok' := hok
+  simp only [Layout.ok, Bool.and_eq_true] at hok'
+  obtain ⟨⟨⟨hren, _⟩, _⟩, hinj⟩ := hok'
+  unfold assemble assembleWith parse at h
+  rw [hpre] at h
+  simp only [] at h
+  generalize hpl : parseLoop (utf8Len (render L P)) (toks.length + 1) toks
+    { orig := none, stmts := [], n := 0, bps := [], line := 1, tokEnd := 0 } [] = r at h
+  obtain ⟨r, tbl'⟩ := r
+  cases r with
+  | diag k s => cases h
+  | panic s => cases h
+  | ok air =>
+    simp only [] at h
+    cases hb : backpatchAll tbl' air.stmts with
+    | none => rw [hb] at h; cases h
+    | some stmts =>
+      rw [hb] at h
+      simp only [] at h
+      cases he : emitAll stmts [] with
+      | diag k s => rw [he] at h; cases h
+      | panic s => rw [he] at h; cases h
+      | ok words =>
+        rw [he] at h
+        simp only [Outcome.ok.injEq] at h
+        subst h
+        exact parse_tokens_ok_image flag L.names P _ toks hm hinj hren hsyn hst air tbl' stmts words hpl hb he
+
+/-- **C04, text level.**  For every layout (`Layout.ok`, the layout space of `Spec/Render.lean`, see
+`Props/C01.lean`) of every abstract program in the domain, the assembler returns an image iff the
+program is well formed (`Prog.image` is defined).  `⇐` is `C01.assemble_image_render`, `⇒` is
+`accept_render_image`.
+
+What `Layout.ok L P` presupposes about `P` (`Prog.renderable`): every `br` has a mnemonic
+(`nzp ≠ 0`), string bodies can stand between quotes, and after the 65,535th word nothing but
+`.blkw 0` follows (there lace answers `too many` where `Prog.image` accepts; `Props/C01.lean`).  It
+does **not** presuppose that operands fit (every 16-bit word has a spelling), that labels are
+defined or defined once (only that distinct label ids have distinct valid names), that `.orig` is
+unique, that the flag allows the stack mnemonics, or that the program has at most 65,535 words
+(the last non-empty statement may cross that limit) — all these rejections are covered. -/
+theorem accept_iff_wf_render : accept_iff_wf (fun P t => ∃ L : Layout, L.ok P ∧ t = render L P) := by
+  intro flag P t hsyn ⟨L, hok, ht⟩
+  subst ht
+  constructor
+  · rintro ⟨img, h⟩
+    rw [accept_render_image flag L P hsyn hok img h]
+    rfl
+  · intro himg
+    obtain ⟨img, h, _⟩ := assemble_image_render flag P _ hsyn himg ⟨L, hok, rfl⟩
+    exact ⟨img, h⟩
+
+/-- **An ill-formed program is answered with a diagnostic**, whatever its layout. -/
+theorem reject_render (flag : Bool) (L : Layout) (P : Prog) (hsyn : P.syntaxOk = true)
+    (hok : L.ok P = true) (hill : P.image flag = none) :
+    ∃ k s, (assemble flag [] (render L P)).1 = .diag k s := by
+  rcases reject_is_diag flag [] (render L P) with ⟨img, h⟩ | h
+  · rw [accept_render_image flag L P hsyn hok img h] at hill
+    cases hill
+  · exact h
+
+/-! ### the hypotheses are satisfiable: one ill-formed program per clause -/
+
+/-- `add r0 r0 #16` · `ld r0 #256` · `trap x100` · `br L0` (undefined) · `L0 halt / L0 halt` ·
+`.orig x3000 / .orig x3000` · `br L0 / .blkw 256 / L0 halt` · `push r0` (flag off) ·
+`.fill 0 / .blkw xFFFF` (65,536 words) -/
+def illFormed : List Prog :=
+  [ ⟨[.stmt none (.addImm 0#3 0#3 16#16)]⟩,
+    ⟨[.stmt none (.ld 0#3 (.lit 0x100#16))]⟩,
+    ⟨[.stmt none (.trap 0x100#16)]⟩,
+    ⟨[.stmt none (.br 7#3 (.label 0))]⟩,
+    ⟨[.stmt (some 0) (.namedTrap 5#3), .stmt (some 0) (.namedTrap 5#3)]⟩,
+    ⟨[.orig 0x3000#16, .orig 0x3000#16]⟩,
+    ⟨[.stmt none (.br 7#3 (.label 0)), .stmt none (.blkw 256#16), .stmt (some 0) (.namedTrap 5#3)]⟩,
+    ⟨[.stmt none (.push 0#3)]⟩,
+    ⟨[.stmt none (.fill 0#16), .stmt none (.blkw 0xFFFF#16)]⟩ ]
+
+set_option maxRecDepth 20000 in
+/-- each of them has a well-formed (here: the canonical) layout and no image … -/
+theorem illFormed_spec : ∀ P ∈ illFormed,
+    (Layout.canon P).ok P = true ∧ P.syntaxOk = true ∧ P.image false = none := by
+  decide
+
+/-- … hence every one is answered with a diagnostic (real lace: `unexpected_token` ×3, `Label not
+found`, `duplicate_label`, `Origin set twice`, `… too large`, `stack_extension_not_enabled`,
+`too_many_statements`) -/
+example : ∀ P ∈ illFormed, ∃ k s, (assemble false [] (render (Layout.canon P) P)).1 = .diag k s := by
+  intro P hP
+  obtain ⟨h1, h2, h3⟩ := illFormed_spec P hP
+  exact reject_render false _ P h2 h1 h3
+
+/-- and the accept direction on the far-from-canonical layout of `Props/C01.lean` -/
+example : ∃ img, (assemble false [] (render exLayout exProg)).1 = .ok img :=
+  (accept_iff_wf_render false exProg _ (by decide) ⟨exLayout, by decide, rfl⟩).mpr (by decide)
 
 end Lace.C04
